@@ -65,6 +65,12 @@ func c07SigClass(in *c07In) (string, string) {
 	for _, r := range in.Reloads {
 		shut = shut || r.ShutErr
 	}
+	for _, r := range in.Reloads {
+		if r.Hold {
+			mode += "-hold"
+			break
+		}
+	}
 	if shut {
 		// a class of its own: the instance being replaced has a failing OnShutdown callback
 		return "hist:" + mode + ":old-onshutdown-error", mode + ":old-onshutdown-error"
